@@ -64,8 +64,60 @@ func (e *Engine) TranslateLemma(l *LemmaDecl) (vc *FuncVC) {
 			env2[k] = v
 		}
 		env2[l.Induct] = Term{"(- " + iv.S + " 1)", "Int", nil}
-		tr.asserts = append(tr.asserts, imp(evalAll(l.Requires, env2), evalAll(l.Ensures, env2)))
+		// the induction hypothesis holds for ALL values of the other parameters at the predecessor
+		var binders []string
+		for _, p := range l.Params {
+			if p.Name == l.Induct {
+				continue
+			}
+			s, gt, _ := tr.c.specSort(p.Sort)
+			tr.c.fresh++
+			vn := q(fmt.Sprintf("bv:%s!%d", p.Name, tr.c.fresh))
+			env2[p.Name] = Term{vn, s, gt}
+			binders = append(binders, fmt.Sprintf("(%s %s)", vn, s))
+		}
+		hyp := imp(evalAll(l.Requires, env2), evalAll(l.Ensures, env2))
+		if len(binders) > 0 {
+			hyp = fmt.Sprintf("(forall (%s) %s)", strings.Join(binders, " "), hyp)
+			// and its ground instance at the lemma's own parameters (needs no trigger)
+			env3 := map[string]Term{}
+			for k, v := range env {
+				env3[k] = v
+			}
+			env3[l.Induct] = env2[l.Induct]
+			tr.asserts = append(tr.asserts, imp(evalAll(l.Requires, env3), evalAll(l.Ensures, env3)))
+		}
+		tr.asserts = append(tr.asserts, hyp)
 		tr.obligeG("true", "lemma", "wellfounded", imp(req, app("<=", "0", iv.S)), 0, nil, "induction variable is bounded below")
+	}
+	// hints: instances of lemmas declared earlier in the contract files
+	for _, h := range l.Hints {
+		var target *LemmaDecl
+		for _, o := range e.Specs.Lemmas {
+			if o == l {
+				break
+			}
+			if o.Name == h.Name {
+				target = o
+			}
+		}
+		if target == nil {
+			panic(evalErr{fmt.Sprintf("%s: hint %s does not name an earlier lemma", l.Where, h.Name)})
+		}
+		if len(h.Args) != len(target.Params) {
+			panic(evalErr{fmt.Sprintf("%s: hint %s has %d arguments, want %d", l.Where, h.Name, len(h.Args), len(target.Params))})
+		}
+		ev := &evalCtx{tr: tr, env: env}
+		henv := map[string]Term{}
+		for i, a := range h.Args {
+			t, err := ev.Eval(a)
+			if err != nil {
+				panic(evalErr{fmt.Sprintf("%s: hint argument: %v", l.Where, err)})
+			}
+			henv[target.Params[i].Name] = t
+		}
+		tr.asserts = append(tr.asserts, imp(evalAll(target.Requires, henv), evalAll(target.Ensures, henv)))
+		tr.c.trusted["lemma-proved-separately:"+target.Name] = true
 	}
 	tr.obligeG("true", "lemma", "holds", ens, 0, nil, strings.TrimSpace(l.Name))
 	for _, o := range tr.obls {
@@ -91,7 +143,7 @@ func (tr *fnTrans) lemmaFacts() []string {
 	pure := &fnTrans{eng: tr.eng, c: c, compSort: map[string]Sort{}}
 	for _, l := range tr.eng.Specs.Lemmas {
 		if l.Name == tr.currentLemma {
-			continue
+			break // a lemma may only use lemmas declared before it (no circular reasoning)
 		}
 		mentions := false
 		for _, cl := range append(append([]Clause{}, l.Requires...), l.Ensures...) {
@@ -137,7 +189,21 @@ func (tr *fnTrans) lemmaFacts() []string {
 				}
 			}
 			if okAll {
-				out = append(out, fmt.Sprintf("(forall (%s) %s)", strings.Join(binders, " "), imp(and(req...), and(ens...))))
+				body := imp(and(req...), and(ens...))
+				if len(l.Triggers) > 0 {
+					var pats []string
+					for _, g := range l.Triggers {
+						var ts []string
+						for _, te := range g {
+							if t, err := ev.Eval(te); err == nil {
+								ts = append(ts, t.S)
+							}
+						}
+						pats = append(pats, ":pattern ("+strings.Join(ts, " ")+")")
+					}
+					body = fmt.Sprintf("(! %s %s)", body, strings.Join(pats, " "))
+				}
+				out = append(out, fmt.Sprintf("(forall (%s) %s)", strings.Join(binders, " "), body))
 				c.trusted["lemma-proved-separately:"+l.Name] = true
 			}
 		}
